@@ -14,10 +14,7 @@
 #endif
 
 /* ---- specification, written from the property statement ---- */
-static int spec_is_meta(unsigned char c) { return c == '<' || c == '>' || c == '"' || c == '\'' || c == '&'; }
-/* DESIGN 5 C32 (and the code's own comment): control bytes except \n \r \t and every byte >= 0x7F are quoted too */
-static int spec_is_ctl8(unsigned char c) { return (c <= 0x1F || c >= 0x7F) && c != '\n' && c != '\r' && c != '\t'; }
-static int spec_must_quote(unsigned char c) { return spec_is_meta(c) || spec_is_ctl8(c); }
+#include "spec_table.h"   /* spec_is_meta, spec_is_ctl8, spec_must_quote, spec_entry_exact */
 static int spec_is_digit(char c) { return c >= '0' && c <= '9'; }
 
 /* Decoder for one unit of quoted text at p: an entity reference (&lt; &gt; &quot; &amp; &apos; or decimal &#d; &#dd; &#ddd;
@@ -80,14 +77,13 @@ extern size_t html_quote_bufsize;
 
 size_t g;             /* ghost index: arbitrary; a statement about out[g] is a statement about every byte */
 
-/* shape of one table entry (the part of the table lemma that html_quote's postconditions re-establish) */
-static int entry_shape_ok(unsigned char c)
+/* the stored entry for c is exactly the specified sequence (raw read of the table object) */
+static int entry_exact(unsigned char c)
 {
-    unsigned n = cv_seq_len(c);
-    if (!spec_must_quote(c)) return n == 0;
-    if (n < 4 || n > 6) return 0;
-    if (cv_seq_byte(c, 0) != '&' || cv_seq_byte(c, n - 1) != ';') return 0;
-    return 1;
+    char s[6];
+    s[0] = cv_seq_byte(c, 0); s[1] = cv_seq_byte(c, 1); s[2] = cv_seq_byte(c, 2);
+    s[3] = cv_seq_byte(c, 3); s[4] = cv_seq_byte(c, 4); s[5] = cv_seq_byte(c, 5);
+    return spec_entry_exact(c, cv_seq_len(c), s);
 }
 
 /* ---------- target "table_lemma" (complete: the 256-iteration loop of the real EscapeSequences() is unwound fully,
@@ -102,6 +98,7 @@ void h_table_lemma(void)
     unsigned n = cv_seq_len(c);
     char u[8];
     for (unsigned k = 0; k < 6; k++) u[k] = k < n ? cv_seq_byte(c, k) : 0;
+    __CPROVER_assert(entry_exact(c), "ensures: the entry for c is exactly the specified sequence (this is the contract the html_quote targets use)");
     __CPROVER_assert(n <= 6, "ensures: every sequence is at most 6 bytes (html_quote sizes its buffer 6*len+1)");
     __CPROVER_assert(!spec_must_quote(c) || (n >= 4 && u[0] == '&' && u[n - 1] == ';'),
                      "ensures: metacharacters, control bytes and bytes >= 0x7F have a non-empty sequence of the form &...;");
@@ -141,6 +138,7 @@ void h_table_lemma(void)
  *   NULL/0 or a live heap block of exactly bufsize = 6k+1 bytes (the two are chosen independently: a superset).
  * ensures: result == the static buffer, non-NULL; buffer invariant re-established; table bound with well-shaped entries;
  *   input not written; plus the per-target clauses. */
+static unsigned char snap_c; static unsigned snap_n; static char snap_s[6]; static _Bool snap_valid;
 static void hq_requires(char *string)
 {
     string[N - 1] = 0;
@@ -149,8 +147,15 @@ static void hq_requires(char *string)
 #ifdef ONLY_FIRST
     later_call = 0; have = 0;
 #endif
-    if (later_call)
+    snap_valid = 0;
+    if (later_call) {
         cv_prior_call_bound_table();
+        unsigned char c2;                      /* snapshot of an arbitrary entry of the already existing table */
+        cv_use_bound_table();
+        snap_c = c2; snap_n = cv_seq_len(c2); snap_valid = 1;
+        snap_s[0] = cv_seq_byte(c2, 0); snap_s[1] = cv_seq_byte(c2, 1); snap_s[2] = cv_seq_byte(c2, 2);
+        snap_s[3] = cv_seq_byte(c2, 3); snap_s[4] = cv_seq_byte(c2, 4); snap_s[5] = cv_seq_byte(c2, 5);
+    }
     if (have) {
         size_t bs;
         __CPROVER_assume(bs >= 1 && bs <= BMAX && bs % 6 == 1);   /* sizes are only ever 6*len+1 */
@@ -161,14 +166,15 @@ static void hq_requires(char *string)
 }
 static void hq_ensures_common(const char *string, char *r)
 {
-    unsigned char c2;
     __CPROVER_assert(r != NULL && r == html_quote_buf, "ensures: returns the static buffer, never NULL");
     __CPROVER_assert(__CPROVER_POINTER_OFFSET(html_quote_buf) == 0 &&
                      __CPROVER_OBJECT_SIZE(html_quote_buf) == html_quote_bufsize && html_quote_bufsize % 6 == 1,
                      "ensures: static buffer invariant (a block of exactly bufsize bytes, bufsize = 6k+1) re-established");
     __CPROVER_assert(cv_table_bound(), "ensures: escapeSequences is bound to the static table");
     cv_use_bound_table();
-    __CPROVER_assert(entry_shape_ok(c2), "ensures: table entries unchanged in shape (any entry)");
+    __CPROVER_assert(!snap_valid || (cv_seq_len(snap_c) == snap_n && cv_seq_byte(snap_c, 0) == snap_s[0] && cv_seq_byte(snap_c, 1) == snap_s[1] &&
+                     cv_seq_byte(snap_c, 2) == snap_s[2] && cv_seq_byte(snap_c, 3) == snap_s[3] && cv_seq_byte(snap_c, 4) == snap_s[4] &&
+                     cv_seq_byte(snap_c, 5) == snap_s[5]), "ensures: the table is not written (any entry, snapshot)");
     __CPROVER_assert(string[N - 1] == 0, "ensures: input not written (sentinel)");
 }
 
@@ -181,7 +187,7 @@ void h_quote_safe(void)
     char *r = html_quote(string);
     hq_ensures_common(string, r);
     size_t lr = strlen(r), ls = strlen(string);
-    __CPROVER_assert(lr <= 6 * ls && lr >= ls, "ensures: result is NUL-terminated within 6*strlen(string) bytes");
+    __CPROVER_assert(lr <= 6 * ls, "ensures: result is NUL-terminated within 6*strlen(string) bytes");
 #ifdef TWIN_ALPHABET
     __CPROVER_assert(!(g < lr) || r[g] == '<' || r[g] == '>' || r[g] == '"' || r[g] == '\'' || r[g] == '&',
                      "ensures: TWIN (negated) no raw markup metacharacter");
